@@ -257,6 +257,10 @@ func (c *ProcCase) Env() *Env { return c.env }
 
 func mkEvent(kind, ref string) event.IEvent {
 	if kind == "message" {
+		// "m#op": message m carrying operation op
+		if base, op, ok := strings.Cut(ref, "#"); ok {
+			return event.NewMessageEvent(base, &op)
+		}
 		return event.NewMessageEvent(ref, nil)
 	}
 	return event.NewSignalEvent(ref)
